@@ -169,6 +169,17 @@ type ForbidGlobal struct {
 	Line  int
 }
 
+// StoresOnly: "storesonly FUNC VAR in F1, F2": the local variable VAR of FUNC
+// (possibly captured by its closures) is assigned only in the listed functions.
+type StoresOnly struct {
+	Props   []string
+	Func    string
+	Var     string
+	Allowed []string
+	File    string
+	Line    int
+}
+
 type MapRangeRule struct {
 	Props  []string
 	Func   string // function key
@@ -190,6 +201,7 @@ type Contracts struct {
 	FieldsCompared []*FieldsCompared
 	FreshInLoops []*FreshInLoop
 	ForbidGlobals []*ForbidGlobal
+	StoresOnlys []*StoresOnly
 	Funcs  map[string]*FuncContract // key: pkgpath + "::" + relname, or absolute name for externals
 	Ghosts map[string]*GhostVar
 	Specs  map[string]*SpecFunc
@@ -200,7 +212,7 @@ type Contracts struct {
 }
 
 var clauseRe = regexp.MustCompile(`^(requires|hypothesis|ensures|xensures|invariant|decreases|assert|assume|modifies|trusted|freshresult|pure|inline|noinline|nullable|maypanic|nopanic|let|set|init|specialize|assign)\b(\[[A-Za-z0-9, ]*\])?\s*(.*)$`)
-var topRe = regexp.MustCompile(`^(func|ghost|spec|axiom|lemma|iface|only|maprange|globalconst|emitonsuccess|constformat|fieldscompared|freshinloop|forbidglobal)\b(\[[A-Za-z0-9, ]*\])?\s*(.*)$`)
+var topRe = regexp.MustCompile(`^(func|ghost|spec|axiom|lemma|iface|only|maprange|globalconst|emitonsuccess|constformat|fieldscompared|freshinloop|forbidglobal|storesonly)\b(\[[A-Za-z0-9, ]*\])?\s*(.*)$`)
 
 func parseProps(s string) []string {
 	s = strings.Trim(s, "[]")
@@ -387,6 +399,27 @@ func (cs *Contracts) parseFile(fname, pkg, prefix string) {
 					r.Allowed = append(r.Allowed, a)
 				}
 				cs.Onlys = append(cs.Onlys, r)
+			case "storesonly":
+				i := strings.Index(rest, " in ")
+				f := strings.Fields(rest)
+				if i < 0 || len(f) < 4 {
+					cs.errf(fname, l.line, "storesonly needs FUNC VAR in F1, F2")
+					continue
+				}
+				q := func(n string) string {
+					n = strings.TrimSpace(n)
+					if pkg != "" && !strings.Contains(n, "::") {
+						n = pkg + "::" + n
+					}
+					return n
+				}
+				r := &StoresOnly{Props: props, Func: q(f[0]), Var: f[1], File: fname, Line: l.line}
+				for _, a := range strings.Split(rest[i+4:], ",") {
+					if strings.TrimSpace(a) != "" {
+						r.Allowed = append(r.Allowed, q(a))
+					}
+				}
+				cs.StoresOnlys = append(cs.StoresOnlys, r)
 			case "forbidglobal":
 				if strings.TrimSpace(rest) == "" {
 					cs.errf(fname, l.line, "forbidglobal needs PKG.NAME")
